@@ -721,7 +721,10 @@ func vfc44Shape(q string) string {
 		case *parser.SubqueryExpr:
 			return "(" + f(v.Expr) + ")[r:s]"
 		case *parser.AggregateExpr:
-			op := "agg" // the analyzer treats every aggregation operator alike
+			op := "agg" // the analyzer treats every aggregation operator alike ...
+			if v.Op == parser.COUNT_VALUES {
+				op = "count_values" // ... but this one writes a label
+			}
 			mod := " by " + lbls(v.Grouping)
 			if v.Without {
 				mod = " without " + lbls(v.Grouping)
@@ -828,9 +831,21 @@ func vfc44NameSplit(data []vfc44Series, infos []*storepb.ShardInfo, pool *sync.P
 	if len(infos) == 0 || infos[0].By {
 		return ""
 	}
-	set := map[string]bool{"__name__": true}
-	for _, l := range infos[0].Labels {
-		set[l] = true
+	return vfc44SplitIgnoring(data, infos, pool, "__name__")
+}
+
+// vfc44SplitIgnoring looks for two series owned by different shards although they agree on all labels that
+// matter for grouping when label ign is additionally ignored (without-mode: all labels except the sharding labels
+// and ign; by-mode: the sharding labels except ign ... plus every other label, i.e. they differ in ign only).
+func vfc44SplitIgnoring(data []vfc44Series, infos []*storepb.ShardInfo, pool *sync.Pool, ign string) string {
+	if len(infos) == 0 {
+		return ""
+	}
+	set := map[string]bool{ign: true}
+	if !infos[0].By {
+		for _, l := range infos[0].Labels {
+			set[l] = true
+		}
 	}
 	type own struct {
 		shard int64
@@ -860,6 +875,79 @@ func vfc44NameSplit(data []vfc44Series, infos []*storepb.ShardInfo, pool *sync.P
 		home[sig.String()] = own{owner, sr.lset.String()}
 	}
 	return ""
+}
+
+// vfc44CountValuesLabel returns the value label of a count_values in q that is one of the labels the shard hash
+// covers (by-mode: a sharding label; without-mode: a label of the data that is not excluded), "" if none.
+func vfc44CountValuesLabel(q string, info *storepb.ShardInfo, data []vfc44Series) string {
+	expr, err := parser.ParseExpr(q)
+	if err != nil {
+		return ""
+	}
+	in := map[string]bool{}
+	for _, l := range info.Labels {
+		in[l] = true
+	}
+	found := ""
+	parser.Inspect(expr, func(n parser.Node, _ []parser.Node) error {
+		a, ok := n.(*parser.AggregateExpr)
+		if !ok || a.Op != parser.COUNT_VALUES {
+			return nil
+		}
+		var p parser.Expr = a.Param
+		for {
+			if pe, ok := p.(*parser.ParenExpr); ok {
+				p = pe.Expr
+				continue
+			}
+			if se, ok := p.(*parser.StepInvariantExpr); ok {
+				p = se.Expr
+				continue
+			}
+			break
+		}
+		sl, ok := p.(*parser.StringLiteral)
+		if !ok {
+			return nil
+		}
+		hashed := in[sl.Val]
+		if !info.By {
+			hashed = false
+			if !in[sl.Val] {
+				for _, s := range data {
+					if s.lset.Has(sl.Val) {
+						hashed = true
+						break
+					}
+				}
+			}
+		}
+		if hashed {
+			found = sl.Val
+		}
+		return nil
+	})
+	return found
+}
+
+// vfc44ClassicHistFunc returns the name of a function in q that combines the le-buckets of a classic histogram.
+func vfc44ClassicHistFunc(q string) string {
+	expr, err := parser.ParseExpr(q)
+	if err != nil {
+		return ""
+	}
+	var names []string
+	parser.Inspect(expr, func(n parser.Node, _ []parser.Node) error {
+		if c, ok := n.(*parser.Call); ok && c.Func != nil && (c.Func.Name == "histogram_fraction" || c.Func.Name == "histogram_quantile") {
+			names = append(names, c.Func.Name)
+		}
+		return nil
+	})
+	sort.Strings(names)
+	if len(names) == 0 {
+		return ""
+	}
+	return names[0]
 }
 
 // vfc44SelectorClass: does the program select series without pinning the metric name?
@@ -1021,14 +1109,34 @@ func TestVF_C44(t *testing.T) {
 				fp := o.symptom
 				if isResult {
 					mode := map[bool]string{true: "by", false: "without"}[o.infos[0].By]
-					if pair := vfc44NameSplit(data, o.infos, pool); pair != "" && !o.infos[0].By && vfc44SelectorClass(q) == "a selector does not pin the metric name" {
-						// root cause visible in the partition: aggregation/matching "without" ignores the metric name, the shard hash does not
+					// Root causes that are visible as evidence get their own, shape-independent fingerprint; anything
+					// else is fingerprinted by symptom and by the shape of the minimised program.
+					cvLabel := vfc44CountValuesLabel(q, o.infos[0], data)
+					histFn := vfc44ClassicHistFunc(q)
+					lePair := ""
+					if histFn != "" {
+						lePair = vfc44SplitIgnoring(data, o.infos, pool, "le")
+					}
+					namePair := ""
+					if !o.infos[0].By && vfc44SelectorClass(q) == "a selector does not pin the metric name" {
+						namePair = vfc44NameSplit(data, o.infos, pool)
+					}
+					switch {
+					case cvLabel != "":
+						// count_values overwrites a label the series were distributed by: its groups span shards
+						fp = "result:count_values-writes-a-label-the-shards-are-split-on | shard " + mode
+						o.what += "; count_values writes label " + cvLabel
+					case lePair != "":
+						fp = "result:buckets-of-one-classic-histogram-are-in-different-shards | shard " + mode + " | " + histFn
+						o.what += "; " + lePair
+					case namePair != "":
+						// aggregation/matching "without" ignores the metric name, the shard hash does not
 						fp = "result:series-differing-only-in-metric-name-are-in-different-shards | shard without | a selector does not pin the metric name"
-						o.what += "; " + pair
+						o.what += "; " + namePair
 						if lbl := vfc44SplitOutput(o.perShard); lbl != "" {
 							o.what += "; output series " + lbl + " is produced by several shards"
 						}
-					} else {
+					default:
 						if shrunk < 60 {
 							shrunk++
 							min = env.shrink(q, shards, o.symptom, 80)
